@@ -322,6 +322,14 @@ PayoutLog(q, t) ==
 (* everything still unbonding paid out (what a far-future block update does) *)
 Settled(st) == PayQueue(st, 2000000000).bank
 
+(* Router::query: a query of a kind that has a module behind it is answered by exactly that module, as that
+   module is configured; queries change nothing (C10) and are not part of the transaction log.  The harness
+   issues one query per kind from inside every contract invocation and through App::wrap and checks this table
+   against what the recording modules saw (category qroute). *)
+QuerySlotOf(kind) == CASE kind = "custom" -> "custom" [] kind = "staking" -> "staking" [] kind = "ibc" -> "ibc"
+                       [] kind = "stargate" -> "stargate" [] kind = "grpc" -> "any"
+QueryAnswers(kind) == Mods[QuerySlotOf(kind)] \in {"accept", "real"}
+
 (* WasmKeeper::send: nothing happens (and no event is kept) for an empty coin list *)
 SendFunds(x, from, to, coins) ==
     IF coins = <<>> THEN Ok(x, <<>>, NoData)
